@@ -16,7 +16,7 @@ Abstractions (the correspondence run checks them, they are not assumed silently)
   validity of `states[i]`.
 * the model returns the *index* `j` at which the check failed; the code stores
   `lastValid.second = (double)(j-1)/(double)nd` and `lastValid.first = interpolate(s1,s2,that)`.
-  The fraction is `fracOf j n` = `(j - 1)/n`, and `0` for `n = 0` (before the F124 fix: `-1/0`).
+  The fraction is `fracOf j n` = `(j - 1)/n`, and `0` for `n = 0` (before the F124 fix e0f5863f3: `-1/0`).
 * `int`/`unsigned int` are `Nat` (assumption: the segment count is below 2^31).
 * `interpolate`, `distance`, `isValid` are oracles (C07/C06's business); the cached Dubins path
   only matters through `pathOk` (Dubins3D `getPath` may fail).
@@ -78,7 +78,7 @@ def checkLinear (n : Nat) (v : Nat → Bool) : Result :=
 /-- numerator of the reported fraction: `(double)(j - 1)` with `int j`. -/
 def fracNum (j : Nat) : Int := (j : Int) - 1
 
-/-- the reported fraction as `(numerator, denominator)`, as coded since the F124 fix:
+/-- the reported fraction as `(numerator, denominator)`, as coded since the F124 fix (e0f5863f3):
 `nd > 0 ? (double)(j - 1) / (double)nd : 0.0` (a zero-length motion has one point, the fraction 0). -/
 def fracOf (j n : Nat) : Int × Nat := if n = 0 then (0, 1) else (fracNum j, n)
 
@@ -86,7 +86,7 @@ def fracOf (j n : Nat) : Int × Nat := if n = 0 then (0, 1) else (fracNum j, n)
 def Result.lastValid (r : Result) (n : Nat) : Option (Int × Nat) :=
   r.failAt.map (fun j => fracOf j n)
 
-/-- the same before the F124 fix: `(double)(j - 1) / (double)nd` also for `nd = 0`, i.e. `-1/0`. -/
+/-- the same before the F124 fix (e0f5863f3): `(double)(j - 1) / (double)nd` also for `nd = 0`, i.e. `-1/0`. -/
 def Result.lastValidOld (r : Result) (n : Nat) : Option (Int × Nat) :=
   r.failAt.map (fun j => (fracNum j, n))
 
